@@ -16,7 +16,7 @@ import (
 // ---- C03: handler chain: ordered, at-most-once, onion, stops on write or cancel (engine E + trace acceptor) ----
 
 type c03Beh struct {
-	Acts string `json:"actions"` // over N (call Next), W (write a status), C (cancel the request context)
+	Acts string `json:"actions"` // over N (call Next), W (write a status), C (cancel the request's current context), T (install a derived cancellable context on the request, as a timeout middleware does)
 	Term int    `json:"terminal"`
 }
 
@@ -24,11 +24,12 @@ var c03TermNames = []string{"return-nothing", `return-""`, "return-string", "pan
 
 func (b c03Beh) String() string { return "[" + b.Acts + "|" + c03TermNames[b.Term] + "]" }
 
-func c03Behaviours(maxActs int) []c03Beh {
+func c03Behaviours(maxActs int, extra ...string) []c03Beh {
 	acts := []string{""}
 	for l := 1; l <= maxActs; l++ {
 		acts = append(acts, stringsOverLen([]string{"N", "W", "C"}, l)...)
 	}
+	acts = append(acts, extra...)
 	var out []c03Beh
 	for _, a := range acts {
 		for t := 0; t < 4; t++ {
@@ -101,6 +102,11 @@ func (w *c03World) body(i int, c flamego.Context) (ret string) {
 		case 'C':
 			w.trace = append(w.trace, c03Ev{K: 'C', I: i})
 			w.cancel()
+		case 'T':
+			w.trace = append(w.trace, c03Ev{K: 'T', I: i})
+			ctx, cancel := gocontext.WithCancel(c.Request().Context())
+			c.Request().Request = c.Request().Request.WithContext(ctx)
+			w.cancel = cancel
 		}
 	}
 	if b.Term == 3 {
@@ -248,7 +254,7 @@ func c03Accept(total int, tr []c03Ev, gotStatus int, gotBody string) (bad, kind 
 				return fmt.Sprintf("%s: the remainder of the chain stopped early inside Next() (nothing written, not cancelled, %d of %d started)", at, started, total), "stopped-early"
 			}
 			stack = stack[:len(stack)-1]
-		case 'W', 'C', 'X', 'P':
+		case 'W', 'C', 'T', 'X', 'P':
 			if t := top(); t == nil || t.next || t.id != ev.I {
 				return at + ": event from a handler that is not on top of the stack", "bad-nesting"
 			}
@@ -303,6 +309,8 @@ func c03TraceString(tr []c03Ev) string {
 			fmt.Fprintf(&b, "%d:write ", e.I)
 		case 'C':
 			fmt.Fprintf(&b, "%d:cancel ", e.I)
+		case 'T':
+			fmt.Fprintf(&b, "%d:install-context ", e.I)
 		case 'X':
 			fmt.Fprintf(&b, "end%d ", e.I)
 		case 'P':
@@ -386,16 +394,17 @@ func c03Run(r *core.Run) {
 	var plans []plan
 	if r.Thorough() {
 		r.SetBudget(12 * time.Minute)
-		plans = []plan{{3, c03Behaviours(3), "<=3 positions, action strings <=3"}, {4, c03Behaviours(2), "4 positions, action strings <=2"}, {5, c03Behaviours(1), "5 positions, action strings <=1"}}
+		plans = []plan{{3, c03Behaviours(3, "T", "TC", "TN", "NT", "TCN", "TNC", "CT", "TW", "TT", "TTC"), "<=3 positions, action strings <=3 over {N,W,C} plus context-installing ones"},
+			{4, c03Behaviours(2, "T", "TC", "TN", "TCN"), "4 positions, action strings <=2 plus context-installing ones"}, {5, c03Behaviours(1, "T", "TC"), "5 positions, action strings <=1 plus T, TC"}}
 	} else {
 		r.SetBudget(70 * time.Second)
 		red := []c03Beh{}
-		for _, a := range []string{"", "N", "W", "NN", "C"} {
+		for _, a := range []string{"", "N", "W", "NN", "C", "T", "TC"} {
 			for _, t := range []int{0, 2, 3} {
 				red = append(red, c03Beh{a, t})
 			}
 		}
-		plans = []plan{{3, c03Behaviours(2), "<=3 positions, action strings <=2"}, {4, red, "4 positions, actions {'',N,W,NN,C} x {nothing,string,panic}"}}
+		plans = []plan{{3, c03Behaviours(2, "T", "TC", "TN", "TCN"), "<=3 positions, action strings <=2 over {N,W,C} plus T, TC, TN, TCN"}, {4, red, "4 positions, actions {'',N,W,NN,C,T,TC} x {nothing,string,panic}"}}
 	}
 	var labels []string
 	for pi, pl := range plans {
@@ -447,7 +456,7 @@ func c03Run(r *core.Run) {
 						if strings.Contains(prog[i].Acts, "N") {
 							hasNext = true
 						}
-						if strings.ContainsAny(prog[i].Acts, "WC") || prog[i].Term >= 2 {
+						if strings.ContainsAny(prog[i].Acts, "WCT") || prog[i].Term >= 2 {
 							hasEffect = true
 						}
 					}
